@@ -1016,6 +1016,8 @@ func (tb *TB) alloc(al *ssa.Alloc) *Term {
 			}
 			t.Args = append(t.Args, mk("KV", st.Field(i).Name(), nil, val))
 		}
+		// the order in which a struct type declares its fields is not part of the value
+		sort.SliceStable(t.Args, func(i, j int) bool { return t.Args[i].S < t.Args[j].S })
 		return t
 	}
 	return mk("Local", al.Name(), al)
